@@ -8,7 +8,7 @@ from __future__ import annotations
 import logging
 import math
 from abc import ABC, abstractmethod
-from typing import Any, Generic
+from typing import Generic
 
 from frequenz.channels import Receiver, ReceiverError
 
@@ -437,7 +437,7 @@ class MetricFetcher(Generic[QuantityT], FormulaStep):
         if self._latest_fallback_sample is None:
             try:
                 self._latest_fallback_sample = await fallback_fetcher.receive()
-            except ReceiverError[Any] as err:
+            except ReceiverError as err:
                 _logger.error(
                     "Fallback metric fetcher %s failed to fetch next value: %s."
                     "Using primary metric fetcher.",
@@ -453,7 +453,7 @@ class MetricFetcher(Generic[QuantityT], FormulaStep):
         while primary_fetcher_sample.timestamp > self._latest_fallback_sample.timestamp:
             try:
                 self._latest_fallback_sample = await fallback_fetcher.receive()
-            except ReceiverError[Any] as err:
+            except ReceiverError as err:
                 _logger.error(
                     "Fallback metric fetcher %s failed to fetch next value: %s."
                     "Using primary metric fetcher.",
@@ -481,7 +481,7 @@ class MetricFetcher(Generic[QuantityT], FormulaStep):
         """
         try:
             primary = await self._stream.receive()
-        except ReceiverError[Any] as err:
+        except ReceiverError as err:
             _logger.error(
                 "Primary metric fetcher %s failed to fetch next value: %s."
                 "Using fallback metric fetcher.",
@@ -519,7 +519,7 @@ class MetricFetcher(Generic[QuantityT], FormulaStep):
         next_value = None
         try:
             next_value = await self._stream.receive()
-        except ReceiverError[Any] as err:
+        except ReceiverError as err:
             _logger.error("Failed to fetch next value from %s: %s", self._name, err)
         else:
             if self._is_value_valid(next_value.value):
